@@ -50,7 +50,7 @@ VERIF = weave.VERIF
 
 def parse_spec(path):
     unit = dict(name=None, props=[], tier='quick', prelude='', postlude='', fns=[], mem_gb=3, timeout_s=600, est_s=10,
-                path=path)
+                path=path, consts=[])
     cur_fn = None
     cur_block = None  # (kind, arg, lines)
     mode = None
@@ -74,10 +74,17 @@ def parse_spec(path):
                 cur_fn['inserts'].append(dict(kind=kind, anchor=arg, text=text))
         cur_block = None
 
+    text_lines = []
     for raw in open(path).read().split('\n'):
+        mi = re.match(r'@include\s+(\S+)', raw)
+        if mi:
+            text_lines += open(os.path.join(os.path.dirname(path), mi.group(1))).read().split('\n')
+        else:
+            text_lines.append(raw)
+    for raw in text_lines:
         m = re.match(r'@(\w+)\s*(.*)', raw)
         if m and m.group(1) in ('unit', 'props', 'tier', 'prelude', 'postlude', 'fn', 'clause', 'contract', 'start', 'loop',
-                                'forloop', 'before', 'after', 'endfn', 'mem', 'timeout', 'est', 'replace'):
+                                'forloop', 'before', 'after', 'afterblock', 'endfn', 'mem', 'timeout', 'est', 'replace', 'const'):
             tag, rest = m.group(1), m.group(2).strip()
             flush()
             if tag == 'unit':
@@ -104,12 +111,15 @@ def parse_spec(path):
                     if extra.startswith('impl '):
                         cur_fn['emit_owner'] = extra[5:].strip()
                 unit['fns'].append(cur_fn)
+            elif tag == 'const':
+                parts = [p.strip() for p in rest.split('::')]
+                unit['consts'].append(dict(file=parts[0], name=parts[1]))
             elif tag == 'clause':
                 if cur_fn is not None:
                     cur_fn['clause'] += (' ' if cur_fn['clause'] else '') + rest
             elif tag in ('contract', 'start'):
                 cur_block = (tag, None, [])
-            elif tag in ('loop', 'forloop', 'before', 'after', 'replace'):
+            elif tag in ('loop', 'forloop', 'before', 'after', 'afterblock', 'replace'):
                 cur_block = (tag, rest, [])
             elif tag == 'endfn':
                 cur_fn = None
@@ -173,21 +183,35 @@ def build_fn(repo, f):
             k = find_line(ins['anchor'], strip_brace=True)
             ops.append((k, 'loop', ins, None))
         elif ins['kind'] == 'forloop':
-            header, itname = [x.strip() for x in ins['anchor'].split('::')]
+            header, itname = [x.strip() for x in ins['anchor'].rsplit(' :: ', 1)]
             k = find_line(header, strip_brace=True)
             ops.append((k, 'forloop', ins, itname))
         elif ins['kind'] in ('before', 'after'):
             k = find_line(ins['anchor'])
             ops.append((k, ins['kind'], ins, None))
+        elif ins['kind'] == 'afterblock':
+            # after the closing brace of the block whose header line is the anchor
+            k = find_line(ins['anchor'], strip_brace=True)
+            depth = 0
+            end = None
+            for kk in range(k, len(lines)):
+                depth += lines[kk].count('{') - lines[kk].count('}')
+                if depth == 0 and kk >= k and '{' in ''.join(lines[k:kk + 1]):
+                    end = kk
+                    break
+            if end is None:
+                raise WeaveError('anchor lost: block of `%s` not closed' % ins['anchor'])
+            ops.append((end, 'after', ins, None))
     out_lines = list(lines)
     # apply from the bottom up so that indices stay valid; several inserts on one line keep spec order
-    for k, kind, ins, extra in sorted(ops, key=lambda x: -x[0]):
+    prio = {'loop': 0, 'forloop': 0, 'after': 1, 'before': 2}
+    for k, kind, ins, extra in sorted(ops, key=lambda x: (-x[0], prio[x[1]])):
         l = out_lines[k]
         if kind == 'loop':
             assert l.rstrip().endswith('{')
             out_lines[k] = l.rstrip()[:-1].rstrip() + '\n' + ins['text'] + '\n{'
         elif kind == 'forloop':
-            mm = re.match(r'(\s*for\s+.+?\s+in\s+)(.*)\{\s*$', l)
+            mm = re.match(r'(\s*for\s+.+?\s+in\s+)(.*)\{\s*$', l, re.S)
             if not mm:
                 raise WeaveError('anchor lost: not a for loop header: %s' % l.strip())
             out_lines[k] = '%s%s: %s\n%s\n{' % (mm.group(1), extra, mm.group(2).strip(), ins['text'])
@@ -205,6 +229,15 @@ def build_unit(repo, unit, outdir):
     parts = ['// GENERATED on every run by tools/verus_extract.py from %s and the working tree of %s\n' % (
         os.path.basename(unit['path']), repo), 'use vstd::prelude::*;\nverus! {\n', unit['prelude']]
     meta = []
+    # real `const` items, copied verbatim (visibility and value untouched)
+    for c in unit['consts']:
+        cpath = os.path.join(repo, c['file'])
+        if not os.path.exists(cpath):
+            raise WeaveError('anchor lost: file %s' % c['file'])
+        cs = open(cpath).read()
+        a, b = weave.find_item(cs, 'const', c['name'])
+        parts.append(cs[a:b].strip() + '\n')
+        meta.append(dict(file=c['file'], owner='-', fn='const ' + c['name'], sha256=weave.sha(cs[a:b]), clause='real constant, copied verbatim', real_lines=cs[a:b].count('\n') + 1))
     by_owner = {}
     order = []
     for f in unit['fns']:
